@@ -250,8 +250,29 @@ func (dir *ufsDir) dotu(path string, d os.FileInfo, upool Users, sysMode *syscal
 // ufsfid returns the file server's state of the fid a request names. A fid
 // has none while the Tattach or Twalk that creates it is still being
 // processed: a client that uses it that early gets an error.
+/* The Aux of a SrvFid is set by the request that binds the fid, and read by
+ * every other request that names it and by FidDestroy when the connection
+ * closes, all of which can run at the same time: under the SrvFid's lock. */
+func ufsaux(sfid *SrvFid) *ufsFid {
+	sfid.Lock()
+	fid, _ := sfid.Aux.(*ufsFid)
+	sfid.Unlock()
+	return fid
+}
+
+/* binds fid to sfid unless sfid has one; a fid that was reported destroyed
+ * meanwhile (the connection closed) must not open anything any more */
+func ufsbind(sfid *SrvFid, fid *ufsFid) {
+	sfid.Lock()
+	if sfid.Aux == nil {
+		fid.gone = sfid.destroyed
+		sfid.Aux = fid
+	}
+	sfid.Unlock()
+}
+
 func ufsfid(req *SrvReq) *ufsFid {
-	fid, _ := req.Fid.Aux.(*ufsFid)
+	fid := ufsaux(req.Fid)
 	if fid == nil {
 		req.RespondError(Eunknownfid)
 	}
@@ -272,13 +293,11 @@ func (*Ufs) ConnClosed(conn *Conn) {
 }
 
 func (*Ufs) FidDestroy(sfid *SrvFid) {
-	var fid *ufsFid
-
-	if sfid.Aux == nil {
+	fid := ufsaux(sfid)
+	if fid == nil {
 		return
 	}
 
-	fid = sfid.Aux.(*ufsFid)
 	closefile := func() {
 		if fid.file != nil {
 			_ = fid.file.Close()
@@ -312,7 +331,7 @@ func (ufs *Ufs) Attach(req *SrvReq) {
 	// directory represented by ufs.Root
 	fid.path = filepath.Join(ufs.Root, filepath.Join("/", tc.Aname))
 
-	req.Fid.Aux = fid
+	ufsbind(req.Fid, fid)
 	err := fid.stat()
 	if err != nil {
 		req.RespondError(err)
@@ -390,8 +409,8 @@ func (ufs *Ufs) Walk(req *SrvReq) {
 	 * partial walk leaves both fids as they were */
 	if i == len(tc.Wname) {
 		nfid.path = path
-		if req.Newfid.Aux == nil {
-			req.Newfid.Aux = nfid
+		if nfid != fid {
+			ufsbind(req.Newfid, nfid)
 		}
 	}
 	req.RespondRwalk(wqids[0:i])
@@ -476,7 +495,7 @@ func (ufs *Ufs) Create(req *SrvReq) {
 			return
 		}
 
-		if ofidaux, ok := ofid.Aux.(*ufsFid); ok && ofidaux != nil {
+		if ofidaux := ufsaux(ofid); ofidaux != nil {
 			opath := fid.path
 			if ofidaux != fid {
 				/* never hold two fids at once: two clients could link each other's */
